@@ -1318,7 +1318,10 @@ func UnserializeScope(data any) (*ScopeSchema, error) {
 	if err != nil {
 		return nil, err
 	}
-	return s.(*ScopeSchema), nil
+	result := s.(*ScopeSchema)
+	// Link the references of the scope to its own objects, as NewScopeSchema does.
+	result.ApplySelf()
+	return result, nil
 }
 
 // UnserializeSchema unserializes an entire schema definition from raw data.
